@@ -51,7 +51,7 @@ class Context:
         if end > self.length:
             # an origin-spanning gene: the window always crosses the origin unless it is everything
             reach = min(cutoff, (self.length - size) // 2 + 1)
-            if size + 2 * reach >= self.length:
+            if size + 2 * reach > self.length:
                 return (0, self.length, 1)
             return ((start - reach) % self.length, size + 2 * reach, 2)
         reach = min(cutoff, (self.length - size) // 2 + 1)
@@ -323,6 +323,7 @@ def case_mechanisms(case: Dict[str, Any]) -> List[str]:
     found = set()
     if zero_start_with_spanning_gene(ctx, {}):
         found.add("gene-at-0-with-origin-spanning-gene")
+    has_spanning_gene = ctx.circular and any(g[1] > ctx.length for g in case["genes"])
     by_name = {r["n"]: r for r in case["rules"]}
     chains_of: Dict[str, List[List[int]]] = {}
     for rule in case["rules"]:
@@ -352,14 +353,22 @@ def case_mechanisms(case: Dict[str, Any]) -> List[str]:
             for start, size in ctx.crossing_spans(members):
                 if size + 2 * rule["nb"] >= ctx.length:
                     found.add("ring-closes")
+            if has_spanning_gene:
+                # a core or a protocluster that starts exactly at base 0 (same lookup as for a gene at 0)
+                for start, size in ctx.geo.spans(members):
+                    if start + size <= ctx.length and (start == 0 or 0 < start <= rule["nb"] < ctx.length - size):
+                        if start == 0 or start - rule["nb"] == 0:
+                            found.add("gene-at-0-with-origin-spanning-gene")
     if ctx.circular:
         for rule in case["rules"]:
             for sup in rule.get("sup") or []:
                 if sup not in by_name:
                     continue
                 for group in chains_of[rule["n"]]:
-                    own = [model.span_bases(v, ctx.length) for v in ctx.crossing_spans(group)]
                     for other in chains_of[sup]:
+                        if not (ctx.crossing_spans(group) or ctx.crossing_spans(other)):
+                            continue
+                        own = [model.span_bases(v, ctx.length) for v in ctx.geo.spans(group)]
                         theirs = [model.span_bases(v, ctx.length) for v in ctx.geo.spans(other)]
                         if any(a & b and not a <= b for a in own for b in theirs):
                             found.add("superior-overlaps-over-origin")
